@@ -1,7 +1,7 @@
 (* C06 property theorems.  Nothing but statements closed by `exact`, a pin, and
    Print Assumptions.  The driver parses this file's output. *)
 From ZV.Common Require Import Base.
-From ZV.C06 Require Import Model ModelGold ModelEasy ModelIdx Spec ProofsBasic ProofsScan ProofsRefine ProofsSmall ProofsGoldRefine ProofsEasy ProofsIdxRefine.
+From ZV.C06 Require Import Model ModelGold ModelEasy ModelIdx ModelFast ModelStr ModelEasyX ModelIdxX Spec ProofsBasic ProofsScan ProofsRefine ProofsSmall ProofsGoldRefine ProofsEasy ProofsIdxRefine ProofsFast ProofsStr ProofsEasyX ProofsIdxX.
 Open Scope N_scope.
 
 (* normalize_hash never produces a slot marker, whatever the hasher returned *)
@@ -101,3 +101,76 @@ Theorem stub_refuted : exists ops, stub_run ops <> srun [] ops.
 Proof. exact stub_refuted_proof. Qed.
 Check stub_refuted : exists ops, stub_run ops <> srun [] ops.
 Print Assumptions stub_refuted.
+
+(* --- extension: SmallMap<u8, V>::get_fast, the vectorised key search (SIMD lanes and mask bits modelled) --- *)
+(* in every state a history can reach (at most 8 inline keys, or the promoted form), for every key, the vectorised
+   lookup - unrolled search up to 4 keys, above that one 16-lane byte compare, movemask, the lane mask
+   (1 << min(len, 8)) - 1 and trailing_zeros - returns exactly what the generic lookup returns *)
+Theorem get_fast_is_get :
+  forall (h : N -> N) (ops : list op) (k : N),
+    let sm := sm_exec h (Small []) ops in sm_get_fast true h sm k = sm_get h sm k.
+Proof. exact get_fast_is_get_proof. Qed.
+Check get_fast_is_get :
+  forall (h : N -> N) (ops : list op) (k : N),
+    let sm := sm_exec h (Small []) ops in sm_get_fast true h sm k = sm_get h sm k.
+Print Assumptions get_fast_is_get.
+
+(* SmallMap<u8> with every get answered by get_fast is a mathematical map, for every history *)
+Theorem smallmap_u8_refines_map :
+  forall (h : N -> N) (ops : list op), Forall2 obs_agree (smf_run true h (Small []) ops) (srun [] ops).
+Proof. exact smallmap_u8_refines_map_proof. Qed.
+Check smallmap_u8_refines_map :
+  forall (h : N -> N) (ops : list op), Forall2 obs_agree (smf_run true h (Small []) ops) (srun [] ops).
+Print Assumptions smallmap_u8_refines_map.
+
+(* the search before 3fcc283 (movemask not restricted to the lanes that hold keys) does not have the property:
+   insert 1..5; get_fast(0) finds the zero padding of the key buffer *)
+Theorem get_fast_unmasked_refuted : exists ops, smf_run false (hasher 0) (Small []) ops <> srun [] ops.
+Proof. exact get_fast_unmasked_refuted_proof. Qed.
+Check get_fast_unmasked_refuted : exists ops, smf_run false (hasher 0) (Small []) ops <> srun [] ops.
+Print Assumptions get_fast_unmasked_refuted.
+
+(* --- extension: HashStrMap = std::collections::HashMap<String, V> (trusted to be a map) + two counters --- *)
+(* the wrapper's entry points answer like a mathematical map for every history (op code 8 = statistics() is an
+   observation outside the property and excluded here); the counters never influence an answer *)
+Theorem hashstr_refines_map :
+  forall ops, Forall (fun o => fst (fst o) <> 8) ops -> Forall2 obs_agree (hs_run hs_new ops) (srun [] ops).
+Proof. exact hashstr_refines_map_proof. Qed.
+Check hashstr_refines_map :
+  forall ops, Forall (fun o => fst (fst o) <> 8) ops -> Forall2 obs_agree (hs_run hs_new ops) (srun [] ops).
+Print Assumptions hashstr_refines_map.
+
+(* in every reachable state (statistics calls included): len() <= unique_keys <= total_inserts, so that
+   interning_ratio() = 1 - unique/total lies in [0, 1) *)
+Theorem hashstr_counters :
+  forall ops, let m := hs_exec hs_new ops in nlen (hs_map m) <= hs_unique m /\ hs_unique m <= hs_total m.
+Proof. exact hashstr_counters_proof. Qed.
+Check hashstr_counters :
+  forall ops, let m := hs_exec hs_new ops in nlen (hs_map m) <= hs_unique m /\ hs_unique m <= hs_total m.
+Print Assumptions hashstr_counters.
+
+(* --- extension: EasyHashMap's entry points built from put(): get_or_insert / get_or_insert_with (code 12: contains_key,
+   put if absent - possibly through the growth rebuild -, get_mut(..).expect(..)) and extend / Extend / FromIterator
+   (code 15: one put of the loop).  The `expect` never fires (no OErr), the answer is the value found or inserted. --- *)
+Theorem easy_ext_refines_map :
+  forall (h : N -> N) (grow : N -> N -> bool) (auto : bool) (c : N) (ops : list op),
+    pow2cap c -> Forall2 obs_agree (easy_runx h grow auto (init c) ops) (srunx [] ops).
+Proof. exact easy_ext_refines_map_proof. Qed.
+Check easy_ext_refines_map :
+  forall (h : N -> N) (grow : N -> N -> bool) (auto : bool) (c : N) (ops : list op),
+    pow2cap c -> Forall2 obs_agree (easy_runx h grow auto (init c) ops) (srunx [] ops).
+Print Assumptions easy_ext_refines_map.
+
+(* --- extension: GoldHashIdx::insert_batch = pre-sizing (code 16: resize_to(next_power_of_two((len + n) * 2)) when that
+   exceeds the capacity - a growth to ANY power of two, not only the doubling of insert) followed by the insert loop
+   (code 17, answer discarded).  Neither step ever fails (no OErr) and the contents are those of the mathematical map. --- *)
+Theorem idx_batch_refines_map :
+  forall (h : N -> N) (c : N) (ops : list op),
+    Forall (fun o => fst (fst o) <= 5 \/ fst (fst o) = 16 \/ fst (fst o) = 17) ops ->
+    Forall2 obs_agree (irunx h (iinit c) ops) (sruni [] ops).
+Proof. exact idx_batch_refines_map_proof. Qed.
+Check idx_batch_refines_map :
+  forall (h : N -> N) (c : N) (ops : list op),
+    Forall (fun o => fst (fst o) <= 5 \/ fst (fst o) = 16 \/ fst (fst o) = 17) ops ->
+    Forall2 obs_agree (irunx h (iinit c) ops) (sruni [] ops).
+Print Assumptions idx_batch_refines_map.
